@@ -476,7 +476,7 @@ class Program:
     def _scan_reflection(self):
         """The class-hierarchy call resolution is sound only without reflection."""
         self.reflection: List[str] = []
-        allowed_decos = {"staticmethod", "classmethod", "dataclass", "abstractmethod"}
+        allowed_decos = {"staticmethod", "classmethod", "dataclass", "abstractmethod", "property"}   # property getters are call-graph edges (calls.properties)
         for mod in self.modules.values():
             for n in ast.walk(mod.tree):
                 if isinstance(n, ast.Call) and isinstance(n.func, ast.Name) and n.func.id in (
